@@ -238,11 +238,12 @@ CHECKS["C06"] = {
         H("opentype/gtab", _S, "VerifH_C06_multiple", ["applied"], quick={"params": {"maxlen": 2}, "timeout": 280}, thorough={"params": {"maxlen": 3}, "timeout": 2400}),
         H("opentype/gtab", _S, "VerifH_C06_ligature", ["applied"], quick={"params": {"maxlen": 3}, "timeout": 280}, thorough={"params": {"maxlen": 4}, "timeout": 2400}),
         H("opentype/gtab", _S, "VerifH_C06_pair", ["applied"], quick={"params": {"maxlen": 2}, "timeout": 280}, thorough={"params": {"maxlen": 3}, "timeout": 2400}),
+        H("opentype/gtab", _S, "VerifH_C06_pairclass", ["applied"], quick={"params": {"maxlen": 2}, "timeout": 280}, thorough={"params": {"maxlen": 3}, "timeout": 2400}),
         H("opentype/gtab", _S, "VerifH_C06_context", ["applied"], quick={"params": {"maxlen": 2}, "timeout": 280}, thorough={"params": {"maxlen": 3}, "timeout": 2400}),
     ],
-    "bounds": {"quick": "lookup lists of concrete shape (GSUB 1.1, 1.2, 2.1 (+ a second lookup in 3 orders), 3.1, 4.1 with two competing ligatures, GPOS 1.1, 2.1 with/without second record, sequence context 5.1 with nested single substitutions) with symbolic replacement ids / value records / nested action indices; lookup flags symbolic over ignore-base/ligature/marks, mark filtering set and mark attachment type 0..2; GDEF class, mark attachment class and mark-set membership of one alphabet glyph symbolic; glyph sequences of length 1..3 [2..3 for ligature/pair/context] with symbolic ids over a 4-glyph alphabet",
+    "bounds": {"quick": "lookup lists of concrete shape (GSUB 1.1, 1.2, 2.1 (+ a second lookup in 3 orders), 3.1, 4.1 with two competing ligatures, GPOS 1.1, 2.1 and 2.2 (class pairs, class values up to and beyond the matrix size) with/without second record, sequence context 5.1 with nested single substitutions) with symbolic replacement ids / value records / nested action indices; lookup flags symbolic over ignore-base/ligature/marks, mark filtering set and mark attachment type 0..2; GDEF class, mark attachment class and mark-set membership of one alphabet glyph symbolic; glyph sequences of length 1..3 [2..3 for ligature/pair/context] with symbolic ids over a 4-glyph alphabet",
                "thorough": "sequences up to length 4-5"},
-    "outside": ["GSUB 8.1, class/coverage based context formats, chained contexts, GPOS 2.2/3/4/5/6", "nested lookups that change the sequence length inside a context", "sequences longer than 5, alphabets larger than 4"],
+    "outside": ["GSUB 8.1, class/coverage based context formats, chained contexts, GPOS 3/4/5/6", "nested lookups that change the sequence length inside a context", "sequences longer than 5, alphabets larger than 4"],
     "assumptions": ["reference shaper written from the OpenType specification (harness/opentype/gtab/refshaper.go) is the oracle", "an undefined mark filtering set contains no glyph"],
 }
 
@@ -255,6 +256,7 @@ CHECKS["C07"] = {
         H("opentype/gtab", _S7, "VerifH_C07_term", ["terminated"], quick={"timeout": 280}),
         H("opentype/gtab", _S7, "VerifH_C06_ligature", ["applied"], quick={"params": {"maxlen": 2}, "timeout": 280}),
         H("opentype/gtab", _S7, "VerifH_C06_multiple", ["applied"], quick={"params": {"maxlen": 2}, "timeout": 280}),
+        H("opentype/gtab", _S7, "VerifH_C06_pairclass", ["applied"], quick={"params": {"maxlen": 2}, "timeout": 280}),
     ],
     "bounds": {"quick": "GSUB subtable readers (types 1-6, every format) on arbitrary 6..12 byte inputs whose 16-bit words are <= the input length, the accepted subtable applied to symbolic sequences of length 1..2; lookup flags fully symbolic with mark filtering set index 0..3 against GDEF tables defining 0, 1 or 2 sets; Context reuse: a first Apply matching a rule with {1,63,64,70} nested actions followed by a second Apply on a symbolic sequence, compared with a fresh Context and the reference; a self-referential context rule with symbolic action indices; text conservation on the ligature and multiple-substitution harnesses of C06",
                "thorough": "readers on up to 22 byte inputs"},
@@ -268,20 +270,22 @@ CHECKS["C10"] = {
         H(".", _R, "VerifH_C10_glyf", ["subset"], quick={"params": {"maxlisted": 1}, "timeout": 280}, thorough={"params": {"maxlisted": 2}, "timeout": 2400}),
         H(".", _R, "VerifH_C10_cmap", ["subset"], quick={"timeout": 280}),
         H(".", _R, "VerifH_C10_layout", ["subset", "ligature", "kerning"], quick={"timeout": 280}),
+        H(".", _R, "VerifH_C10_cff", ["subset"], quick={"timeout": 280}),
     ],
-    "bounds": {"quick": "TrueType font of 6 glyphs (3 simple, 2 composites with symbolic component ids incl. a nested composite, one empty glyph); glyph lists [0, g1] [thorough: [0, g1, g2]] with symbolic distinct members in any order, nondeterministic map iteration order; format 12 cmap over 3 characters with symbolic target glyphs; one GSUB 4.1 ligature rule and one GPOS 2.1 pair among 4 glyphs with symbolic glyph lists of 2..3 members",
+    "bounds": {"quick": "TrueType font of 6 glyphs (3 simple, 2 composites with symbolic component ids incl. a nested composite, one empty glyph); glyph lists [0, g1] [thorough: [0, g1, g2]] with symbolic distinct members in any order, nondeterministic map iteration order; format 12 cmap over 3 characters with symbolic target glyphs; one GSUB 4.1 ligature rule and one GPOS 2.1 pair among 4 glyphs with symbolic glyph lists of 2..3 members; a CID-keyed CFF font with 5 glyphs, 3 font dictionaries and a symbolic FD assignment",
                "thorough": "3 listed glyphs"},
-    "outside": ["CFF fonts (simple and CID-keyed) and their private dictionaries / font matrices / built-in encodings", "GSUB 1.1 rules, format 4 cmaps", "writing and re-reading the subset", "fonts with more than 6 glyphs"],
+    "outside": ["simple CFF fonts and built-in encodings", "GSUB 1.1 rules, format 4 cmaps", "writing and re-reading the subset", "fonts with more than 6 glyphs"],
     "assumptions": ["glyph names identify outlines when checking that component references and ligature results point to the same outline"],
 }
 
 CHECKS["C20"] = {
     "harnesses": [
         H(".", ["c20.go", "common.go"], "VerifH_C20_names", ["named"], quick={"params": {"maxnamelen": 1}, "timeout": 280, "shards": 3}, thorough={"params": {"maxnamelen": 1, "fullsym": 1}, "timeout": 2400, "shards": 3}),
+        H(".", ["c20.go", "common.go"], "VerifH_C20_cff", ["named"], quick={"params": {"maxnamelen": 1}, "timeout": 280}, thorough={"params": {"maxnamelen": 2}, "timeout": 2400}),
     ],
-    "bounds": {"quick": "TrueType font with 4 glyphs whose names are absent, a too-short list, or 4 symbolic strings of length 0..1 [2 in thorough] over {A,B,.} (missing, duplicate and colliding names are solver-chosen); format 12 cmap for 'A' and 'B' with one [thorough: two] symbolic target glyph(s); none or one GSUB 1.2 / 3.1 / 4.1 subtable with one [two] symbolic in-range glyph id(s); nondeterministic map iteration order; MakeGlyphNames twice, EnsureGlyphNames, GlyphName",
+    "bounds": {"quick": "TrueType font with 4 glyphs whose names are absent, a too-short list, or 4 symbolic strings of length 0..1 [2 in thorough] over {A,B,.} (missing, duplicate and colliding names are solver-chosen); format 12 cmap for 'A' and 'B' with one [thorough: two] symbolic target glyph(s); none or one GSUB 1.2 / 3.1 / 4.1 subtable with one [two] symbolic in-range glyph id(s); nondeterministic map iteration order; MakeGlyphNames twice, EnsureGlyphNames, GlyphName; a 3-glyph simple CFF font with symbolic names",
                "thorough": "same"},
-    "outside": ["PostScriptName (regexp over a symbolic string)", "CFF fonts / MakeSimple", "more than 4 glyphs, names longer than 2 bytes"],
+    "outside": ["PostScriptName (regexp over a symbolic string)", "cff MakeSimple / CID-keyed fonts", "more than 4 glyphs, names longer than 2 bytes"],
     "assumptions": ["GSUB rules refer to existing glyphs (as the property's quantifier states)"],
 }
 
@@ -304,10 +308,11 @@ CHECKS["C18"] = {
         H("header", ["c18.go", "c03.go"], "VerifH_C18_write", ["success", "fault"], quick={"timeout": 280, "shards": 2}),
         H("header", ["c18.go", "c03.go"], "VerifH_C18_read", ["truncated", "failing directory"], quick={"timeout": 280, "shards": 2}),
         H("parser", "c17.go", "VerifH_C17_history", ["done"], quick={"params": {"steps": 2, "shorts": 1}, "timeout": 280, "shards": 6}),
+        H("cff", "c18.go", "VerifH_C18_cffwrite", ["success", "fault"], quick={"timeout": 280}),
     ],
-    "bounds": {"quick": "containers with 1..3 tables (optional 54-byte head, a table of 0/1/4/5 bytes, optionally a third of 2/3/8 bytes, symbolic contents): a writer accepting exactly k bytes for every k in 0..len+4 (k symbolic); the written file truncated to every k < len; a ReaderAt returning a non-EOF error for any access touching offset >= k, for every k; parser short reads (shared with C17, first 6 file lengths)",
+    "bounds": {"quick": "containers with 1..3 tables (optional 54-byte head, a table of 0/1/4/5 bytes, optionally a third of 2/3/8 bytes, symbolic contents): a writer accepting exactly k bytes for every k in 0..len+4 (k symbolic); the written file truncated to every k < len; a ReaderAt returning a non-EOF error for any access touching offset >= k, for every k; parser short reads (shared with C17, first 6 file lengths); (*cff.Font).Write of a concrete 2-glyph font into a writer failing after k bytes, every k",
                "thorough": "same"},
-    "outside": ["the full font writer / reader ((*Font).Write, sfnt.Read, cff.Font.Write) with injected faults", "streaming (non-seekable) readers", "files larger than ~150 bytes"],
+    "outside": ["the full font writer / reader ((*Font).Write, sfnt.Read) with injected faults", "streaming (non-seekable) readers", "files larger than ~150 bytes"],
     "assumptions": ["the failing writer reports short writes together with an error (io.Writer contract)"],
 }
 
